@@ -108,6 +108,10 @@ def run(tier: str, opts: dict) -> int:
         dialects = opts["dialects"].split(",")
     t0 = time.time()
     cases, n_exec = enumerate_cases(sqlgen.TABLE_PROFILE, D, depth)
+    known = {sql for sql, _ in cases}
+    more, n2 = enumerate_cases(sqlgen.TABLE_SETOP, D - 1, depth)  # second centre: union of two derived tables
+    cases += [c for c in more if c[0] not in known]
+    n_exec += n2
     tasks = []
     for sql, (st, trace, ndev) in cases:
         for d in dialects:
@@ -191,7 +195,7 @@ def run(tier: str, opts: dict) -> int:
         distinct_nontrivial=len(nontrivial),
         generator_executions=n_exec,
         distinct_statements=len(cases),
-        rule=f"all choice sequences with <= {D} deviations from 'INSERT INTO tgt SELECT c1 FROM t1' over statement kind x query form x "
+        rule=f"all choice sequences with <= {D} deviations from 'INSERT INTO tgt SELECT c1 FROM t1' (and <= {D - 1} from a second centre, the union of two derived tables) over statement kind x query form x "
         f"FROM shape x relation kind x WHERE form x select-list form x tail, nesting depth <= {depth}; rendered per dialect; "
         "non-trivial = distinct rendered statement reading >= 2 tables or containing a derived table, CTE or set operation",
         exhaustive=True,
